@@ -6,7 +6,6 @@ ROOT = os.path.dirname(os.path.dirname(os.path.abspath(__file__)))
 BASE = json.load(open("/root/.vp/BASELINE.json"))
 
 NA = {
-    "C11": "enclosure of the projected source is decided by PROJ + GEOS numerics (footprint densification, 0.9 px buffer, UTM lookup in PROJ's database), which cannot be executed symbolically; the snapping core it ends in (GeoBox.from_bbox/snap_grid) is decided under C08/C20",
     "C15": "every observable (pixels, transform, CRS, nodata, block layout, overviews, overwrite behaviour on disk) is produced by GDAL through rasterio; the only arithmetic (block-size rounding) is obligation L1 of C05",
 }
 PENDING = "solver-based check designed (DESIGN.md section 4) but not yet built in this round"
